@@ -292,6 +292,8 @@ def ota_bfs(report, depth):
             # must carry the data of the firmware whose type/version it echoes
             evs.append(rx("1;255;4;0;2;" + words_to_hex(1, 2, 0)))
             evs.append(rx("1;255;4;0;2;" + words_to_hex(1, 2, 9)))
+            # a stray request naming a firmware that was never registered: the session must survive it
+            evs.append(rx("1;255;4;0;2;" + words_to_hex(7, 7, 0)))
             # the update is issued again (same key) in the middle of a session
             evs.append(("fw", 1, 1, 1, "F1"))
             evs.append(("fw", 2, 1, 2, None))
@@ -381,6 +383,7 @@ def _c_run_one(name, prefix):
         if f[2] == "4" and f[4] == "3":
             early_blocks.setdefault(int(f[0]), []).append(f[5])
     sched.c09 = []
+    sched.gw = gw
     for nid, (ftype, fver, blocks, crc) in adverts.items():
         data = b""
         for blk in range(blocks):
